@@ -184,7 +184,7 @@ impl C17 {
 
     fn judge_dyn(&mut self, ctx: &mut Ctx, rng: &mut Rng) {
         ctx.eval();
-        let shape = gdyn::gen_root_shape(rng);
+        let shape = gdyn::gen_root_shape_wrapped(rng);
         let v = gdyn::gen_value(rng, &shape);
         ctx.set_input(&format!("shape: {shape:?}\nvalue: {v:?}"));
         let r = guarded(|| {
